@@ -1110,6 +1110,27 @@ func (a *analyser) assumeCmp(st *state, l linForm, op token.Token, r linForm) {
 				st.dead = true
 			}
 		}
+	case l.kind == lfLen && r.kind == lfLen && l.obj != r.obj:
+		// len(x) + c1 op len(y) + c2
+		set := func(x, y types.Object, c int64) { // len(x) ≥ len(y) + c
+			k := relKey{x, y}
+			if cur, ok := st.lge[k]; !ok || c > cur {
+				st.lge[k] = c
+			}
+		}
+		switch op {
+		case token.EQL:
+			set(l.obj, r.obj, r.c-l.c)
+			set(r.obj, l.obj, l.c-r.c)
+		case token.GEQ:
+			set(l.obj, r.obj, r.c-l.c)
+		case token.GTR:
+			set(l.obj, r.obj, r.c-l.c+1)
+		case token.LEQ:
+			set(r.obj, l.obj, l.c-r.c)
+		case token.LSS:
+			set(r.obj, l.obj, l.c-r.c+1)
+		}
 	case l.kind == lfLen && r.kind == lfVar:
 		a.assumeCmp(st, r, flipOp(op), l)
 	case l.kind == lfVar && r.kind == lfLen:
@@ -2178,6 +2199,7 @@ func (a *analyser) stmt(s ast.Stmt, st *state) *state {
 		if st.dead {
 			return st
 		}
+		a.forAppend(v, st, head)
 		return head
 	case *ast.RangeStmt:
 		a.expr(v.X, st)
@@ -3101,6 +3123,84 @@ func scanNilable(l *loader, x *xinfo) {
 					return true
 				})
 			}
+		}
+	}
+}
+
+// for i := a; i < len(x); i++ { …; y = append(y, e1 … ek); … }  with the append a top-level statement of the body and the only assignment
+// to y in the loop, i changed only by the post statement `i++`, x not assigned, no break / continue / goto in the body: the body runs
+// max(0, len(x) − a) times, so after the loop len(y) ≥ len(x) − a (and ≥ what y had before).
+func (a *analyser) forAppend(v *ast.ForStmt, before, after *state) {
+	if a.bail || after.dead || v.Init == nil || v.Cond == nil || v.Post == nil {
+		return
+	}
+	init, ok := v.Init.(*ast.AssignStmt)
+	if !ok || len(init.Lhs) != 1 || len(init.Rhs) != 1 {
+		return
+	}
+	i := a.intVar(init.Lhs[0])
+	start, okS := a.constInt(init.Rhs[0])
+	post, okP := v.Post.(*ast.IncDecStmt)
+	cond, okC := ast.Unparen(v.Cond).(*ast.BinaryExpr)
+	if i == nil || !okS || start < 0 || !okP || post.Tok != token.INC || a.objOf(post.X) != i || !okC || cond.Op != token.LSS || a.objOf(cond.X) != i {
+		return
+	}
+	r := a.lin(cond.Y, before)
+	if r.kind != lfLen || r.c > 0 {
+		return
+	}
+	x := r.obj
+	assigned := a.assignedIn(v.Body)
+	if _, bad := assigned[x]; bad {
+		return
+	}
+	if _, bad := assigned[i]; bad {
+		return
+	}
+	branch := false
+	ast.Inspect(v.Body, func(n ast.Node) bool {
+		if _, ok := n.(*ast.BranchStmt); ok {
+			branch = true
+		}
+		return !branch
+	})
+	if branch {
+		return
+	}
+	for _, s := range v.Body.List {
+		as, ok := s.(*ast.AssignStmt)
+		if !ok || as.Tok != token.ASSIGN || len(as.Lhs) != 1 || len(as.Rhs) != 1 {
+			continue
+		}
+		call, ok := as.Rhs[0].(*ast.CallExpr)
+		if !ok || !a.builtin(call.Fun, "append") || call.Ellipsis != token.NoPos || len(call.Args) < 2 {
+			continue
+		}
+		y := a.lenVar(as.Lhs[0])
+		if y == nil || y == x || a.lenVar(call.Args[0]) != y {
+			continue
+		}
+		n := 0
+		ast.Inspect(v.Body, func(c ast.Node) bool {
+			if w, ok := c.(*ast.AssignStmt); ok {
+				for _, l := range w.Lhs {
+					if a.objOf(l) == y {
+						n++
+					}
+				}
+			}
+			if w, ok := c.(*ast.RangeStmt); ok && (a.objOf(w.Key) == y || a.objOf(w.Value) == y) {
+				n++
+			}
+			return true
+		})
+		if n != 1 {
+			continue
+		}
+		// iterations = len(x) + r.c − start (if positive)
+		after.lge[relKey{y, x}] = r.c - start
+		if base, ok := before.minLen(y); ok && base > 0 {
+			after.lens[y] = lenset{{base, inf}}
 		}
 	}
 }
